@@ -29,6 +29,12 @@ func getSignificandPlusOne(float64Bits uint64) float64 {
 // exponent should be >= -1022 and <= 1023
 // significandPlusOne should be >= 1 and < 2
 func buildFloat64(exponent int, significandPlusOne float64) float64 {
+	if significandPlusOne >= 2 {
+		// Rounding can bring the significand up to 2 (e.g., x-floor(x)+1 for x just below an integer), whose
+		// fraction bits are those of 1: that is the first value of the next binade, not of this one.
+		exponent++
+		significandPlusOne /= 2
+	}
 	if exponent > exponentBias {
 		// Beyond the largest finite binade: saturate instead of letting the exponent bits wrap around.
 		return math.Inf(1)
